@@ -211,9 +211,9 @@ ChooseCmp == Fam("cmp") /\ \E e \in CmpEdits : \E v, im \in BOOLEAN : \E swap \i
                       verbose |-> v, ignore_missing |-> im])
 
 LongName == "a_very_long_field_name"
-ChooseAhelp == Fam("ahelp") /\ \E nf \in 1..3 : \E nr \in {0, 1, 3} : \E rot \in 0..4 : \E pretty \in BOOLEAN : \E long \in BOOLEAN :
-                LET kinds == <<K("i", "-", <<>>), K("f", "-", <<3>>), K("s", "S", <<>>), K("f", "-", <<2, 2>>), K("s", "U", <<>>)>>
-                    kd(j) == kinds[((j + rot) % 5) + 1] IN
+ChooseAhelp == Fam("ahelp") /\ \E nf \in 1..3 : \E nr \in {0, 1, 3} : \E rot \in 0..5 : \E pretty \in BOOLEAN : \E long \in BOOLEAN :
+                LET kinds == <<K("i", "-", <<>>), K("f", "-", <<3>>), K("s", "S", <<>>), K("f", "-", <<2, 3>>), K("s", "U", <<>>), K("i", "-", <<3, 1, 2>>)>>
+                    kd(j) == kinds[((j + rot) % 6) + 1] IN
                 Emit([fn |-> "ahelp", pretty |-> pretty,
                       tab |-> [nrows |-> nr, fields |-> [j \in 1..nf |-> [nm |-> IF long /\ j = nf THEN LongName ELSE Names[j],
                                                                          cls |-> kd(j).cls, sk |-> kd(j).sk, shape |-> kd(j).shape]]]])
